@@ -36,6 +36,8 @@ enum Stmt {
     Inc,
     CondSet(i64),
     CondCreate(i64),
+    /// ndb_compact on the shared handle (no logical effect; a concurrent maintenance call)
+    Compact,
 }
 
 impl Stmt {
@@ -44,6 +46,7 @@ impl Stmt {
             Stmt::Inc => "MATCH (c:Ctr) SET c.v = c.v + 1".into(),
             Stmt::CondSet(t) => format!("MATCH (c:Ctr) WHERE c.v = 0 SET c.v = 1, c.w = {t}"),
             Stmt::CondCreate(t) => format!("MATCH (c:Ctr) WHERE c.v < 2 CREATE (:Item {{t: {t}}})"),
+            Stmt::Compact => "<ndb_compact>".into(),
         }
     }
     fn apply(&self, st: &mut (i64, i64, Vec<i64>)) {
@@ -60,6 +63,7 @@ impl Stmt {
                     st.2.push(*t);
                 }
             }
+            Stmt::Compact => {}
         }
     }
     fn kind(&self) -> &'static str {
@@ -67,6 +71,7 @@ impl Stmt {
             Stmt::Inc => "Inc",
             Stmt::CondSet(_) => "CondSet",
             Stmt::CondCreate(_) => "CondCreate",
+            Stmt::Compact => "Compact",
         }
     }
 }
@@ -107,9 +112,12 @@ pub fn c09(tier: Tier) -> i32 {
             vec![vec![Stmt::CondSet(1)], vec![Stmt::CondSet(2)]],
             vec![vec![Stmt::Inc], vec![Stmt::CondCreate(2)]],
             vec![vec![Stmt::Inc, Stmt::Inc], vec![Stmt::Inc]],
+            vec![vec![Stmt::Inc, Stmt::Inc], vec![Stmt::Compact]],
         ];
         if tier == Tier::Thorough {
             c.push(vec![vec![Stmt::Inc], vec![Stmt::Inc], vec![Stmt::Inc]]);
+            c.push(vec![vec![Stmt::Inc], vec![Stmt::Inc], vec![Stmt::Compact]]);
+            c.push(vec![vec![Stmt::Inc, Stmt::Compact], vec![Stmt::CondSet(2), Stmt::Inc]]);
             c.push(vec![vec![Stmt::CondSet(1)], vec![Stmt::Inc], vec![Stmt::CondCreate(3)]]);
             c.push(vec![vec![Stmt::Inc, Stmt::CondCreate(1)], vec![Stmt::CondSet(2), Stmt::Inc]]);
         }
@@ -136,7 +144,8 @@ pub fn c09(tier: Tier) -> i32 {
                 let errs = errs.clone();
                 bodies.push(Box::new(move || {
                     for (i, s) in prog.iter().enumerate() {
-                        match db.execute_write(&s.cypher(), None) {
+                        let r = if *s == Stmt::Compact { db.compact().map(|_| 0) } else { db.execute_write(&s.cypher(), None) };
+                        match r {
                             Ok(_) => oks.lock().unwrap()[t][i] = true,
                             Err(e) => errs.lock().unwrap().push(format!("T{t} stmt {i}: {}", e.message)),
                         }
